@@ -215,14 +215,14 @@ func (c *Ctx) rulesC13(a *coreAnchors, la *LockAnalysis) {
 			if f.Parent() != nil || !isExportedFunc(f) || f.Signature.Recv() == nil || namedOf(f.Signature.Recv().Type()) != mt {
 				continue
 			}
-			for i, s := range c.sitesIn(f, funcKey(mps)) {
+			for i, s := range c.innerSites(f, funcKey(mps)) {
 				// is the result used (passed on / indexed)?
 				v := s.Value()
 				if v == nil || v.Referrers() == nil || len(*v.Referrers()) == 0 {
 					continue
 				}
 				n++
-				c.requireGuards("C13.nil", funcKey(f)+" > mustParseStates"+nth(i), s, a.notDisposing())
+				c.requireGuardsHosted("C13.nil", funcKey(f)+" > mustParseStates"+nth(i), s, f, a.notDisposing())
 			}
 		}
 		if n < 4 {
